@@ -154,6 +154,57 @@ func libParsers(cfg *vh.Config, er *encRun) {
 		}
 		add(fmt.Sprintf("CDecimal %s %s", codecgen.BytesTerm(s), optBytes(ok && m.Decimal != nil, val)), "decimal", s)
 	}
+	// strconv on the sub-domain where the float laws are PROVED of a model (model/CodecFloatInt.v):
+	// integer-valued floats of magnitude < 10^5, both widths, both signs; plus neighbours outside the
+	// sub-domain (non-integers, 10^5 and above), on which the model must answer None
+	smallInts := []int64{0, 1, 2, 9, 10, 99, 100, 255, 256, 1023, 1024, 4095, 4096, 65535, 65536, 99999}
+	for i := 0; i < cfg.Scale(50, 3000); i++ {
+		smallInts = append(smallInts, int64(r.Intn(100000)))
+	}
+	for _, n := range smallInts {
+		for _, neg := range []bool{false, true} {
+			v := float64(n)
+			if neg {
+				v = math.Copysign(v, -1)
+			}
+			for _, is32 := range []bool{true, false} {
+				var bits uint64
+				bitSize := 64
+				if is32 {
+					bits, bitSize = uint64(math.Float32bits(float32(v))), 32
+				} else {
+					bits = math.Float64bits(v)
+				}
+				txt := strconv.FormatFloat(v, 'g', -1, bitSize)
+				back, err := strconv.ParseFloat(txt, bitSize)
+				backTerm := "None"
+				if err == nil {
+					if is32 {
+						backTerm = fmt.Sprintf("(Some %d)", math.Float32bits(float32(back)))
+					} else {
+						backTerm = fmt.Sprintf("(Some %d)", math.Float64bits(back))
+					}
+				}
+				add(fmt.Sprintf("CFloatInt %s %d %s %s", vh.BoolTerm(is32), bits, codecgen.BytesTerm(txt), backTerm), "floatint", txt)
+			}
+		}
+	}
+	for _, v := range []float64{0.5, 1.5, -2.25, 100000, 100001, 999999, 1e6, 1e21, 123456.5, 5e-324, math.MaxFloat32, math.MaxFloat64} {
+		for _, is32 := range []bool{true, false} {
+			var bits uint64
+			fv := v
+			if is32 {
+				fv = float64(float32(v))
+				bits = uint64(math.Float32bits(float32(v)))
+			} else {
+				bits = math.Float64bits(v)
+			}
+			if fv == math.Trunc(fv) && math.Abs(fv) < 100000 {
+				continue // rounds into the sub-domain at this width (5e-324 is 0 as a float32)
+			}
+			add(fmt.Sprintf("CFloatOut %s %d", vh.BoolTerm(is32), bits), "floatint", fmt.Sprint(v))
+		}
+	}
 	// the float law the theorems assume: the text strconv prints reads back to the same float
 	// (float32: read at 32 bits, as the decoder does), and it is a JSON number
 	nf := cfg.Scale(20000, 2000000)
